@@ -146,6 +146,25 @@ pub fn for_each_source(t: &Tree, sc: &Scratch, mode: Mode, st: &mut SrcStats, f:
     st.us_build_fs += t0.elapsed().as_micros() as u64;
     f(&fs, &Variant::plain("fs", "disk"), None);
 
+    // (1b) the same tree reached through symbolic links: a source sees a link to a file as that file and
+    // a link to a directory as that directory (read / exists follow links, so listings must too)
+    {
+        let t0 = std::time::Instant::now();
+        let lf = sc.base.join("lf");
+        mk::write_tree_links(&lf, &root, t, false).map_err(mach("write linked tree (files)"))?;
+        let fs = FileSystem::new(&lf).map_err(mach("FileSystem::new"))?;
+        st.fs += 1;
+        st.us_build_fs += t0.elapsed().as_micros() as u64;
+        f(&fs, &Variant::plain("fs", "links-to-files"), None);
+        if !t.dirs.is_empty() {
+            let ld = sc.base.join("ld");
+            mk::write_tree_links(&ld, &root, t, true).map_err(mach("write linked tree (dirs)"))?;
+            let fs = FileSystem::new(&ld).map_err(mach("FileSystem::new"))?;
+            st.fs += 1;
+            f(&fs, &Variant::plain("fs", "links-to-dirs"), None);
+        }
+    }
+
     // (4) embedded, through the real expansion code
     let t0 = std::time::Instant::now();
     let store = mk::embed_expand(&root)?;
